@@ -74,6 +74,9 @@ package mvp6_3
 //@   assume-before (*Context).RATCommit: risc.wfCtxRAT(m.ctx)
 //@   assume-before (*Context).RATFlush: risc.wfCtxRAT(m.ctx) && m.ctx.Registers != nil
 //@   nooverflow cycle, m.counterFlush
+//@   -- (C03) an execute unit's error ends the run only if no flush was requested in the same cycle
+//@   -- by a unit scanned before it: a wrong-path instruction must not make the run fail (known finding F22)
+//@   return 0: !flush
 //@   loop 0: invariant cycle >= 0 && wired(m)
 //@   loop 0: exit writesDone(m)
 //@   loop 0: exit executeUnitsIdle(m)
